@@ -109,7 +109,7 @@ func c18Src(name string, n *c18node) string {
 		}
 	}
 	// inside code that is handed its argument by the caller
-	s += " (defn Ident9 [x9] (+ x9 0))"
+	s += " (defn Ident9 [x9] (+ x9 0)) (defn Sum9 [arr9] (+ (aget arr9 0) 0)) (defn First9 [l9] (+ 0 (first l9))) (defn Lz9 [#x9] (+ 0 (force #x9)))"
 	return s + "))"
 }
 
@@ -170,14 +170,14 @@ func init() {
 	core.Register(&core.Prop{
 		ID:    "C18",
 		Level: "exploration",
-		Rule: "random package trees (packages nested to depth 3, value / function / hash members with nested hashes, names with upper-case, lower-case, underscore and non-ASCII first runes), reached through the package, an alias of it, an alias of an inner package and a hash holding the package. Every member path is accessed from outside by a read route (operand of a builtin, right-hand side of def and let, argument, infix operand, call through the path for functions) and every value member directly under a package by the write routes (set p.x v) and {p.x = v}, verified through a capitalised getter defined inside the package; every value path is also handed as the caller's argument to a function defined inside a package ((P.Sub.Ident9 P.Sub.x)); the private members of an enclosing package are named through each nested package that does not define them (P.Inner.secret: read, def, set, infix assignment, call, hash descent); generic accessors (hget in all its spellings, hpair) handed the package value itself must never return a private member's canary; inside code (public getter/setter) must keep full access to private members when called from outside. " +
+		Rule: "random package trees (packages nested to depth 3, value / function / hash members with nested hashes, names with upper-case, lower-case, underscore and non-ASCII first runes), reached through the package, an alias of it, an alias of an inner package and a hash holding the package. Every member path is accessed from outside by a read route (operand of a builtin, right-hand side of def and let, argument, infix operand, call through the path for functions) and every value member directly under a package by the write routes (set p.x v) and {p.x = v}, verified through a capitalised getter defined inside the package; every value path is also handed as the caller's argument to a function defined inside a package ((P.Sub.Ident9 P.Sub.x)); private paths, spelled the way outside code and the way inside code would, are hidden in an array, a list or a lazy argument handed to the package's own functions; the private members of an enclosing package are named through each nested package that does not define them (P.Inner.secret: read, def, set, infix assignment, call, hash descent); generic accessors (hget in all its spellings, hpair) handed the package value itself must never return a private member's canary; inside code (public getter/setter) must keep full access to private members when called from outside. " +
 			"Oracle: visibility model over the tree (capitalisation decides at the last hop and before entering a hash; nested packages traversable under any case; keys inside a reachable hash are not members): allowed => the member's unique canary integer is returned / the write takes effect; forbidden => an error, the canary never appears and the value is unchanged. non-trivial = distinct tree with >=1 nested package, >=1 hash member and both an allowed and a forbidden path",
 		Assumptions: []string{
 			"dot-symbols self-evaluate until used as an operand, so a path is always observed through a consuming route",
 		},
 		NCases:  func(c *core.Ctx) int { return thorN(c, 400, 8000) },
 		Chunk:   40,
-		MustSee: []string{"reads_allowed", "reads_forbidden", "writes_allowed", "writes_forbidden", "inside_code_accesses", "calls_through_path", "paths_as_arguments_of_inside_functions", "outer_private_through_nested_package"},
+		MustSee: []string{"reads_allowed", "reads_forbidden", "writes_allowed", "writes_forbidden", "inside_code_accesses", "calls_through_path", "paths_as_arguments_of_inside_functions", "outer_private_through_nested_package", "paths_hidden_in_containers"},
 		Run:     c18Run,
 	})
 }
@@ -365,6 +365,43 @@ func c18Run(c *core.Ctx, i int) *core.Result {
 	}
 	if !outer(tree, nil) {
 		return res
+	}
+	// a path written by the caller but hidden in an array, a list or a lazy argument, and only looked at by the
+	// package's own function: it is still the caller's path (names that resolve only inside the package must
+	// not resolve, the caller's visibility applies to full paths)
+	nh := 0
+	for _, p := range paths {
+		if p.allow || nh >= 6 || len(p.parts) > 2 {
+			continue
+		}
+		var inside string // the path as code inside P would write it
+		canary := ""
+		switch {
+		case p.leaf.kind == "val" && len(p.parts) == 1:
+			inside, canary = "."+p.parts[0], strconv.Itoa(p.leaf.val)
+		case p.leaf.kind == "val" && len(p.parts) == 2 && tree.kids[p.parts[0]].kind == "hash":
+			inside, canary = p.parts[0]+"."+p.parts[1], strconv.Itoa(p.leaf.val)
+		default:
+			continue
+		}
+		nh++
+		full := "P." + strings.Join(p.parts, ".")
+		for _, text := range []string{
+			"(P.Sum9 [" + inside + " 0])", "(P.First9 (list " + inside + "))", "(P.Lz9 " + inside + ")",
+			"(P.Sum9 [" + full + " 0])", "(P.First9 (list " + full + "))", "(P.Lz9 " + full + ")", "(Q.Sum9 [0 " + full + "])",
+		} {
+			o := s.Eval(text+"\n", 0)
+			res.Evals++
+			res.Ev("paths_hidden_in_containers", 1)
+			if o.Panic != "" {
+				res.Violate("escaped-panic:"+o.Site, o.Panic, setup+text)
+				return res
+			}
+			if got := OutStr(o); o.Err == nil && strings.Contains(got, canary) {
+				res.Violate("private-member-read:path-hidden-in-container-or-lazy-argument", fmt.Sprintf("%s is written outside the package and hands out the private member's value %s: %s", text, canary, got), setup+text)
+				return res
+			}
+		}
 	}
 	// generic accessors handed the package value itself (not a dot path, so they are free to fail;
 	// what they must never do is hand out a private member's value)
